@@ -84,6 +84,16 @@ def render(rng, rows, delim, eol="\n", comments=True, trailing_newline=True):
     return text + (eol if trailing_newline else "")
 
 
+def file_quats(rng, n):
+    """unit quaternions; in a third of the files every row carries only 4..8 decimals, as other
+    tools print them (unit to that precision only - the pose is that of the normalised quaternion)"""
+    q = unit_quats(rng, n)
+    if rng.random() < .33:
+        q = np.round(q, int(rng.integers(4, 9)))
+        q[~np.any(q, axis=1)] = [1.0, 0.0, 0.0, 0.0]
+    return q
+
+
 def make_rows(rng, fmt, n):
     """returns rows of literal strings and the values they denote"""
     if fmt == "tum":
@@ -101,7 +111,7 @@ def make_rows(rng, fmt, n):
         p = rng.normal(size=(n, 3)) * 10.0**rng.uniform(-3, 6)
         if rng.random() < .3:
             p = np.round(p)
-        q = unit_quats(rng, n)  # w x y z
+        q = file_quats(rng, n)  # w x y z
         vals = np.column_stack([t, p, q[:, 1], q[:, 2], q[:, 3], q[:, 0]])
     elif fmt == "kitti":
         p = rng.normal(size=(n, 3)) * 10.0**rng.uniform(-3, 6)
@@ -113,7 +123,7 @@ def make_rows(rng, fmt, n):
             k = int(rng.integers(1, n))
             t[k] = t[k - 1]  # two rows with the same stamp
         p = rng.normal(size=(n, 3)) * 10.0**rng.uniform(-3, 3)
-        q = unit_quats(rng, n)
+        q = file_quats(rng, n)
         extra = int(rng.integers(0, 10))
         vals = np.column_stack([t.astype(float), p, q] + [rng.normal(size=n) for _ in range(extra)])
     rows = []
